@@ -51,11 +51,11 @@ func GenReacquirePlan(t *rapid.T, profile string) *Plan {
 	return p
 }
 
-// MixReacquire returns gen, except that one case in eight comes from each of GenReacquirePlan,
-// GenRestartInFlightPlan, GenStragglerPlan and GenStopAfterUnnoticedLossPlan.
+// MixReacquire returns gen, except that one case in nine comes from each of GenReacquirePlan,
+// GenRestartInFlightPlan, GenStragglerPlan, GenStopAfterUnnoticedLossPlan and GenStallPlan.
 func MixReacquire(profile string, gen func(*rapid.T) *Plan) func(*rapid.T) *Plan {
 	return func(t *rapid.T) *Plan {
-		k := rapid.IntRange(0, 7).Draw(t, "shape")
+		k := rapid.IntRange(0, 8).Draw(t, "shape")
 		switch os.Getenv("VERIF_ONLY_SHAPE") { // (development aid)
 		case "reacquire":
 			k = 0
@@ -65,6 +65,8 @@ func MixReacquire(profile string, gen func(*rapid.T) *Plan) func(*rapid.T) *Plan
 			k = 2
 		case "unnoticed-loss":
 			k = 3
+		case "stall":
+			k = 4
 		}
 		switch k {
 		case 0:
@@ -75,6 +77,8 @@ func MixReacquire(profile string, gen func(*rapid.T) *Plan) func(*rapid.T) *Plan
 			return GenStragglerPlan(t, profile)
 		case 3:
 			return GenStopAfterUnnoticedLossPlan(t, profile)
+		case 4:
+			return GenStallPlan(t, profile)
 		}
 		return gen(t)
 	}
@@ -203,6 +207,76 @@ func GenStopAfterUnnoticedLossPlan(t *rapid.T, profile string) *Plan {
 	for i := 0; i < rapid.IntRange(0, 3).Draw(t, "ndice"); i++ {
 		p.Dice = append(p.Dice, rapid.SampledFrom([]float64{0, 0.999999, 0.5}).Draw(t, "dice"))
 	}
+	sortTimeline(p)
+	return p
+}
+
+// GenStallPlan builds plans in which a library goroutine is descheduled for a while at one of the scheduling
+// points (Plan.Stalls) - between two steps that are not atomic together - while the thing that must not
+// happen in between is made to happen:
+//   - start-vs-cancel: Start looks at the previous run (still live), and before it takes the election mutex
+//     the caller's other goroutine cancels that run's context;
+//   - double-adoption: two acquisitions of one instance are answered close together (the re-acquire shape)
+//     and the first is held between its "do I lead already?" check and its adoption;
+//   - heartbeat-loads: a leader that also follows the key (it acquired it as a follower) is held between its
+//     leadership check and the load of the revision it refreshes against, while a higher-priority instance
+//     takes the record over and the watcher records the successor's revision.
+func GenStallPlan(t *rapid.T, profile string) *Plan {
+	shape := rapid.IntRange(0, 2).Draw(t, "stall_shape")
+	if v := os.Getenv("VERIF_STALL_SHAPE"); v != "" { // (development aid)
+		shape = int(v[0] - '0')
+	}
+	switch shape {
+	case 0:
+		h := rapid.SampledFrom([]time.Duration{200 * time.Millisecond, time.Second}).Draw(t, "H")
+		p := &Plan{Profile: profile + "/stall-start-vs-cancel", H: h, TTL: 3 * h, SnapEvery: odd(h/3 + 37*time.Microsecond)}
+		p.Instances = []Inst{{ID: "A", Group: "g", Lat: []time.Duration{1, 3}, Promote: rapid.SampledFrom([]int{0, 1, 2}).Draw(t, "promote")}}
+		p.Timeline = []Action{{At: 1, Kind: ActStart, Inst: 0}}
+		if rapid.Bool().Draw(t, "other") {
+			p.Instances = append(p.Instances, Inst{ID: "B", Group: "g", Lat: []time.Duration{3, 5}})
+			p.Timeline = append(p.Timeline, Action{At: odd(h / 2), Kind: ActStart, Inst: 1})
+		}
+		t1 := odd(h + time.Duration(rapid.Int64Range(0, int64(2*h)).Draw(t, "t_restart")))
+		d := time.Duration(rapid.Int64Range(int64(time.Microsecond), int64(20*time.Millisecond)).Draw(t, "stall"))
+		p.Timeline = append(p.Timeline, Action{At: t1, Kind: ActStart, Inst: 0})
+		if rapid.Bool().Draw(t, "cancel_inline") {
+			// cancelled right there, and Start goes on at once: the goroutines the cancellation wakes come later
+			p.Stalls = []Stall{{Inst: 0, Point: PointStartLookLock, N: 1, CancelRun: true}}
+		} else {
+			p.Stalls = []Stall{{Inst: 0, Point: PointStartLookLock, N: 1, D: d}}
+			p.Timeline = append(p.Timeline, Action{At: t1 + odd(time.Duration(rapid.Int64Range(1, int64(d)).Draw(t, "cancel_after"))), Kind: ActCancelCtx, Inst: 0, NoWait: true, OnlyRunning: true})
+		}
+		if rapid.Bool().Draw(t, "stop_later") {
+			p.Timeline = append(p.Timeline, Action{At: t1 + odd(4*h+p.TTL), Kind: ActStop, Inst: 0})
+		}
+		p.Horizon = t1 + 8*h + 2*p.TTL + 2*time.Second
+		sortTimeline(p)
+		return p
+	case 1:
+		p := GenReacquirePlan(t, profile)
+		p.Profile = profile + "/stall-double-adoption"
+		for j := rapid.IntRange(1, 3).Draw(t, "nstalls"); j > 0; j-- {
+			p.Stalls = append(p.Stalls, Stall{Inst: rapid.IntRange(0, len(p.Instances)-1).Draw(t, "stall_inst"), Point: PointAcquireAdopt, N: rapid.IntRange(0, 4).Draw(t, "stall_n"),
+				D: time.Duration(rapid.Int64Range(int64(time.Microsecond), int64(300*time.Millisecond)).Draw(t, "stall"))})
+		}
+		return p
+	}
+	h := rapid.SampledFrom([]time.Duration{200 * time.Millisecond, time.Second}).Draw(t, "H")
+	p := &Plan{Profile: profile + "/stall-heartbeat-loads", H: h, TTL: 3 * h, SnapEvery: odd(h/3 + 41*time.Microsecond), Dice: []float64{0}}
+	p.Instances = []Inst{
+		{ID: "C", Group: "g", Lat: []time.Duration{1, 3}},
+		{ID: "A", Group: "g", Priority: 1, Lat: []time.Duration{1, 3}, VI: 3 * h, Promote: rapid.SampledFrom([]int{0, 1}).Draw(t, "promote")},
+		{ID: "B", Group: "g", Priority: 2, Takeover: true, Lat: []time.Duration{3, 5}},
+	}
+	ts := odd(h / 2)
+	p.Timeline = []Action{{At: 1, Kind: ActStart, Inst: 0}, {At: 11, Kind: ActStart, Inst: 1}, {At: ts, Kind: ActStopCtx, Inst: 0, DeleteKey: true}}
+	// A acquires about 10ms (the round's minimal jitter, dice 0) after the delete; its k-th tick is k*H later
+	k := rapid.IntRange(1, 4).Draw(t, "tick")
+	d := h / 2
+	p.Stalls = []Stall{{Inst: 1, Point: PointHeartbeatLoads, N: k - 1, D: d}}
+	tick := ts + 10*time.Millisecond + time.Duration(k)*h
+	p.Timeline = append(p.Timeline, Action{At: odd(tick + time.Duration(rapid.Int64Range(int64(time.Millisecond), int64(d-time.Millisecond)).Draw(t, "b_after_tick"))), Kind: ActStart, Inst: 2})
+	p.Horizon = tick + 8*h + p.TTL + 2*time.Second
 	sortTimeline(p)
 	return p
 }
